@@ -74,6 +74,9 @@ let render_err fs (e : cerr) =
   Printf.sprintf "err file=%s idx=%d line=%s kind=%s trace=%s" (hex_of_bytes e.ce_file) (int_of_n e.ce_idx)
     (line_of fs e.ce_file e.ce_idx) (kind_name e.ce_kind) (hex_of_bytes (bytes_of_string (render_trace_plain fs e.ce_trace)))
 
+(* an unbounded fuel: the cyclic value S (S (S ...)) *)
+let rec infinite_fuel = S infinite_fuel
+
 let () =
   Registry.register "run" (fun a ->
       match a with
@@ -82,7 +85,7 @@ let () =
         let fs = mk_fs rest in
         let root = fst (Stdlib.List.hd fs) in
         let banned = Stdlib.List.filter_map (fun i -> Stdlib.List.nth_opt all_kinds i) ban in
-        let r = scan_forest (ask "schema") (ask "enum") fs banned root in
+        let r = scan_forest_with infinite_fuel (ask "schema") (ask "enum") fs banned root in
         let r = if stage = "expand" then (match r with COk ts -> expand ts | x -> x) else r in
         (match r with
          | COk ts -> "ok tree=" ^ Stdlib.String.concat "" (Stdlib.List.map (render_tree fs) ts)
